@@ -199,6 +199,22 @@ def handle (j : J) : J :=
         .obj [("html", strToJ h), ("doc", docToJ (parseHtml h))]
       | _, _, _, _, _, _, _, _ => bad "tab"
     | _ => bad "control kind"
+  | some "jsescape" =>
+    match (j.get? "s") >>= strOfJ with
+    | some s =>
+      let e := jsEscape s
+      .obj [("escaped", strToJ e),
+            ("read", match jsRead (e ++ ['"']) with
+                     | some (v, rest) => .obj [("value", strToJ v), ("rest", strToJ rest)]
+                     | none => .null)]
+    | none => bad "jsescape"
+  | some "jsread" =>
+    match (j.getArr? "literals") >>= (·.mapM strOfJ) with
+    | some ls =>
+      .obj [("reads", .arr (ls.map fun l => match jsRead l with
+                     | some (v, rest) => .obj [("value", strToJ v), ("rest", strToJ rest)]
+                     | none => .null))]
+    | none => bad "jsread"
   | some "sites" =>
     .obj [("all_escaped", .bool sites.allEscaped),
           ("table", .arr (siteTable.map fun p => .arr [.str (reprStr p.1), .bool p.2]))]
